@@ -104,7 +104,7 @@ def same_float(a, b, ulps=0):
     return close(h2f(a), h2f(b), ulps=ulps) if a is not None and b is not None else a == b
 
 
-def one_case(ctx, prog, label="gen"):
+def one_case(ctx, prog, label="gen", explicit_wm=None):
     rng = ctx.rng
     try:
         H = gen_comp.run_program(prog)
@@ -115,6 +115,17 @@ def one_case(ctx, prog, label="gen"):
     n = model.prior_count
     if n == 0:
         return
+    # width modifiers given explicitly to some priors (they override the configuration of that prior only)
+    if explicit_wm is None:
+        explicit_wm = []
+        if rng.random() < 0.3:
+            for j in rng.sample(range(n), rng.randint(1, min(n, 2))):
+                explicit_wm.append([j, rng.choice(["abs", "rel"]), rng.choice([0.25, 2.0, 7.5])])
+    for j, kind, val in explicit_wm:
+        if j < n:
+            list(model.priors_ordered_by_id)[j].width_modifier = (AbsoluteWidthModifier if kind == "abs" else RelativeWidthModifier)(val)
+    if explicit_wm:
+        ctx.hit("explicit-width-modifier")
     comp = X.node_of(model)
     feats = c01.features(comp)
     priors = list(model.priors_ordered_by_id)
@@ -134,7 +145,7 @@ def one_case(ctx, prog, label="gen"):
     if ctx.tier == "quick":
         modes = [modes[0]] + rng.sample(modes[1:], 3)
     for mode in modes:
-        case = {"program": prog, "mode": mode, "inferred": xs, "label": label}
+        case = {"program": prog, "mode": mode, "inferred": xs, "label": label, "explicit_wm": explicit_wm}
         nontrivial = n >= 2 and (any(x <= 0 for x in xs) or feats["places"] > n or mode != {"k": "means"})
         ctx.case({"comp": comp, "mode": mode, "xs": [f2h(x) for x in xs]}, nontrivial=nontrivial,
                  sample={"program": gen_comp.program_text(prog)[-300:], "mode": mode, "inferred": xs[:6]})
@@ -336,4 +347,4 @@ def run(ctx):
 
 def replay(ctx, payload):
     case = payload.get("case") or payload.get("disagreements", [{}])[0].get("case")
-    one_case(ctx, case["program"], label="replay")
+    one_case(ctx, case["program"], label="replay", explicit_wm=case.get("explicit_wm"))
